@@ -395,6 +395,8 @@ def hex_from_temp(value: bool | float | None) -> HexStr4:
     # if not -(2**7) <= value < 2**7:  # TODO: tighten range
     #     raise ValueError(f"Invalid temp: {value} is out of range")
     temp = round(value * 100)
+    if not -(2**15) <= temp < 2**15:  # would otherwise wrap into another valid temp
+        raise ValueError(f"Invalid temp: {value} is out of range")
     return f"{temp if temp >= 0 else temp + 2 ** 16:04X}"
 
 
